@@ -216,6 +216,37 @@ fn rows_json(rows: &[Row], simple: bool) -> Value {
 
 const KINDS: &[&str] = &["override", "underride", "content", "room", "sender"];
 
+/// The rule `get_match` selects for the probe event: payload 1 is the only payload whose conditions / pattern match it
+/// (conditions(1) = [k == "p0"], pattern "p" against the body "p"); room and sender rules match by their id.
+fn first_match(rs: &Ruleset) -> Value {
+    use ruma_common::push::{AnyPushRuleRef, PushConditionRoomCtx};
+    let ev: ruma_common::serde::Raw<Value> = ruma_common::serde::Raw::new(&json!({
+        "type": "m.room.message", "room_id": "!a:s.co", "sender": "@a:s.co", "event_id": "$e", "k": "p0",
+        "content": {"msgtype": "m.text", "body": "p"}})).unwrap();
+    let ctx = PushConditionRoomCtx {
+        room_id: OwnedRoomId::try_from("!a:s.co").unwrap(),
+        member_count: js_int::uint!(3),
+        user_id: OwnedUserId::try_from("@me:s.co").unwrap(),
+        user_display_name: "zz".into(),
+        power_levels: None,
+    };
+    match guard(|| rs.get_match(&ev, &ctx).map(|r| {
+        let kind = match &r {
+            AnyPushRuleRef::Override(_) => "override",
+            AnyPushRuleRef::Content(_) => "content",
+            AnyPushRuleRef::Room(_) => "room",
+            AnyPushRuleRef::Sender(_) => "sender",
+            AnyPushRuleRef::Underride(_) => "underride",
+            _ => "other",
+        };
+        (kind.to_owned(), r.rule_id().to_owned())
+    })) {
+        Ok(Some((k, id))) => json!({"kind": k, "id": cps(&id)}),
+        Ok(None) => json!({"kind": "none", "id": [0]}),
+        Err(_) => json!({"kind": "panic", "id": [0]}),
+    }
+}
+
 /// impl -> spec: long random walks on one Ruleset; every call is logged with its arguments, result class
 /// and the projected list of the kind it addressed.
 pub fn record(args: &[String]) {
@@ -231,7 +262,7 @@ pub fn record(args: &[String]) {
     for run in 0..runs {
         let mut rs = if run % 2 == 0 { Ruleset::new() } else { Ruleset::server_default(<&UserId>::try_from("@u:s.co").unwrap()) };
         l += 1;
-        let mut init = json!({"l": l, "ev": "reset"});
+        let mut init = json!({"l": l, "ev": "reset", "plain": run % 2 == 0, "match": first_match(&rs)});
         for k in KINDS {
             init[*k] = rows_json(&project(&rs, k), matches!(*k, "room" | "sender"));
         }
@@ -274,6 +305,7 @@ pub fn record(args: &[String]) {
                 "before": op.before.as_deref().map(cps).unwrap_or(none.clone()),
                 "en": op.en, "res": res,
                 "post": rows_json(&project(&rs, kind), simple),
+                "match": first_match(&rs),
             }));
         }
     }
